@@ -268,6 +268,11 @@ func c16Universe() []fieldpath.Path {
 		fieldpath.Path{peField("b"), peValue(1.5)}, fieldpath.Path{peField("b"), peValue(true)}, fieldpath.Path{peField("b"), peValue(nil)},
 		fieldpath.Path{peField("b"), peIndex(-3)}, fieldpath.Path{peField("f:x")}, fieldpath.Path{peField(".")},
 		fieldpath.Path{peField("b"), peValue(float64(1 << 40))}, fieldpath.Path{peField("b"), peValue(int64(1) << 53)},
+		// numbers of other Go widths, as a caller may hand them over
+		fieldpath.Path{peField("w"), peValue(uint32(7))}, fieldpath.Path{peField("w"), peValue(uint32(9))},
+		fieldpath.Path{peField("w"), peValue(int32(8))}, fieldpath.Path{peField("w"), peValue(int(5))},
+		fieldpath.Path{peField("w"), peKey("port", uint32(8080))}, fieldpath.Path{peField("w"), peKey("port", uint32(443)), peField("name")},
+		fieldpath.Path{peField("w"), peValue(float32(2.5))},
 	)
 }
 
